@@ -360,6 +360,12 @@ def run_corrupt(ctx, idx):
                           message=f"checker raised instead of reporting {names}: {exc!r}")
             return
         for name, touches, fn, cue in chosen:
+            if name == "feature_length" and "missing[experiment:event count]" in names:
+                # without the event count the checker takes the length of the first feature
+                # as the reference: the inconsistency is then reported for the *other*
+                # features - the statement asks for a report, not for a particular name
+                cue = r"wrong event count: '"
+                ctx.count("feature_length_cue_without_event_count")
             hit = any(re.search(cue, v) for v in viol)
             ctx.check("c13.detect", hit,
                       lambda: dict(case, expected_cue=cue, violations=viol[:8]),
